@@ -346,9 +346,36 @@ def run(ctx, res):
     res.failures.sort(key=lambda f: len(repr(f["case"])))
 
 
+def typed_fail(t):
+    if t["castok"] is None or t["raised"]:
+        return None
+    ok_type = t["ist"] if t["subtype"] else t["isx"]
+    called = bool(t["seen"])
+    exp_called = ok_type or (t["cast"] and t["castok"])
+    if called != exp_called or (called and not ok_type and t["seen"][0][0] != t["dtype"]) or not t["orig_ok"] \
+            or (called and ok_type and not t["seen"][0][2]) or (not called and t["result"] is not False):
+        return "typed predicate saw %s for %s" % (t["seen"], {k: t[k] for k in ("dtype", "subtype", "cast", "value")})
+    return None
+
+
 def replay(obj):
-    print(obj.get("what"), obj.get("case"))
     case = obj.get("case") or {}
+    sig = obj.get("signature", "")
+    print(obj.get("what"))
     if "seq" in case:
-        print("builder now gives:", real_build(case["name"], case["single"], [tuple(x) for x in case["seq"]]))
+        out = real_build(case["name"], case["single"], [tuple(x) for x in case["seq"]])
+        print("builder now gives:", out)
+        return 1
+    if sig == "typed-predicate":
+        for t in typed_cases():
+            if all(t[k] == case[k] for k in ("dtype", "subtype", "cast", "value")):
+                f = typed_fail(t)
+                print("now:", f or "callee saw only the declared type or a successful cast; original event untouched")
+                return 1 if f else 0
+    if "npreds" in case:
+        for (n, s_, l, ng, o), ok in block_table():
+            if (n, s_, l, ng, o) == (case["npreds"], case["strict"], case["loop"], case["negated"], case["optional"]):
+                legal = n > 0 and not (s_ and o) and not (l and (ng or o)) and not (ng and o)
+                print("constructor now %s, documented %s" % ("accepts" if ok else "rejects", "legal" if legal else "illegal"))
+                return 0 if ok == legal else 1
     return 1
